@@ -241,16 +241,23 @@ def run(rep, tier, rng):
                     lo = mid + 1
                 else:
                     hi = mid
-            why = C.run_hx([("x", "prog", ["std"] + forms[:2 * (lo + 1)])], timeout=120).get("x", ["?"])
-            why = " ".join(why)
-            if "overflowed its stack" in why or "memory allocation" in why or "T timeout" in why or "not-run" in why:
+            whyl = C.run_hx([("x", "prog", ["std"] + forms[:2 * (lo + 1)])], timeout=120).get("x", ["?"])
+            why = " ".join(whyl)
+            if lo >= len(forms) // 2 and len(whyl) == len(forms):
+                # the chunk dies only inside the long harness process (which has run thousands of texts before it), not when
+                # its texts are evaluated again from a fresh process: accumulated memory, not something a text of this chunk
+                # does. Its texts are judged on the results of the fresh run.
+                rep.extra["chunks_that_died_only_in_the_long_process"] = rep.extra.get("chunks_that_died_only_in_the_long_process", 0) + 1
+                a = whyl
+            elif "overflowed its stack" in why or "memory allocation" in why or "T timeout" in why or "not-run" in why:
                 # stack exhaustion by unbounded recursion / expansion, exhausted memory, non-termination: outside the claim
                 rep.extra["texts_ending_in_stack_or_memory_exhaustion"] = rep.extra.get("texts_ending_in_stack_or_memory_exhaustion", 0) + 1
                 continue
-            rep.violation({"what": "the interpreter process died (abort) while evaluating a text", "death": why[-300:],
-                           "text": forms[2 * lo] if 2 * lo < len(forms) else None,
-                           "earlier_texts_on_the_same_interpreter": [forms[2 * j] for j in range(max(0, lo - 12), lo)],
-                           "result": a}); continue
+            else:
+                rep.violation({"what": "the interpreter process died (abort) while evaluating a text", "death": why[-300:],
+                               "text": forms[2 * lo] if 2 * lo < len(forms) else None,
+                               "earlier_texts_on_the_same_interpreter": [forms[2 * j] for j in range(max(0, lo - 12), lo)],
+                               "result": a}); continue
         for k in range(0, len(forms), 2):
             kind, text = texts[ci * CH + k // 2]
             rep.count()
